@@ -267,6 +267,18 @@ PROPS = {
         "assumptions": ["soroban-env-host test mode implements on-chain semantics incl. update_current_contract_wasm", "upgrade destinations are the repository's pinned wasm fixtures (no wasm32 target offline); after a swap the fixture's code runs",
                         "the migration window flag is not observable; it is decided through later migrate outcomes"],
     },
+    "C16": {
+        "title": "Executable-interface apps act only on approved messages, exactly once",
+        "policy": {"guards": ["approved"], "fields": ["status"], "events": ["app_executed", "message_executed"], "rets": []},
+        "jobs": [
+            {"kind": "graph", "spec": "MC_C16", "module": "Gateway", "evkinds": GW_EVENTS + ["app_executed"],
+             "need": ["AppExecute/ok", "AppExecute/approved", "ApproveMessages/ok"],
+             "control": sibling_control(["app"], "key")},
+        ],
+        "level_text": "TLC proves gate (effect only on an unexecuted approval naming this app, chain, id, source address and payload hash), completeness, exactly-once (the same delivery is refused in the post-state) and no effect on failure on every transition of a finite instance (all interleavings of approvals deviating in one respect each and deliveries to both apps); all transitions are executed against the shipped example contract and a minimal app using AxelarExecutableInterface::validate_message, on the real gateway.",
+        "rule": "cases = transitions of the bounded TLC instance replayed against the contracts; distinct = distinct (approval-table state, action) pairs",
+        "assumptions": ["soroban-env-host test mode implements on-chain semantics", "bounds: 3 message keys, 7 approval contents, 2 apps"],
+    },
 }
 
 NOT_YET = {}
